@@ -426,7 +426,8 @@ def cbNomail (cfg : Cfg) : CbRes :=
     | .err _ => { fr := .error, logmsg := true, t := t }
     | .ok m =>
       { fr := .deniedMsg, logmsg := true, t := t,
-        wrote := [.parts (if nomailCodebeg m then [m] else [Gen.Rcpt.replyNomailHead, m])] }
+        wrote := [.parts (if nomailCodebeg m then [m.take Gen.Rcpt.nomailCodeLen, m.drop Gen.Rcpt.nomailCodeLen]
+                         else [Gen.Rcpt.replyNomailHead, m])] }
 
 /-- conversion `long` → `int` on the target -/
 def toInt32 (v : Int) : Int :=
